@@ -1,31 +1,63 @@
 (* C12: proto bytes are standard protobuf wire format, both ways.
-   Definitions and statements: Proto/WireSpec.v (transcription of the protobuf encoding specification). *)
-From Verif Require Import Base.GoInt Proto.Model Proto.Spec Proto.WireSpec Proto.WireRefuted Proto.WireSpecProofs.
+   Definitions and statements: Proto/WireSpec.v (an independent transcription of the protobuf encoding
+   specification: record layer, merge semantics, dialects, canonical encoder, the set of all legal encodings of a
+   message, Go type -> message descriptor, decoded message -> Go value). The transcription is tied to the
+   reference implementation google.golang.org/protobuf by the correspondence check (cases w.dec, o.dec). *)
+From Verif Require Import Base.GoInt Proto.Model Proto.Spec Proto.WireSpec.
+From Verif Require Proto.WireRefuted Proto.WireSpecProofs Proto.WireEncProofs Proto.WireDecProofs Proto.WireProofs.
 
-(* a bool written as a two-byte varint is a legal encoding that Unmarshal rejects: statement (b) is false
-   without the restriction on padded bools (class .boolpad of the harness) *)
-Theorem c12_reencoded_any_padding_refuted : ~ unmarshal_reencoded_statement true.
-Proof. exact WireRefuted.unmarshal_reencoded_refuted. Qed.
-(* a repeated field tagged zigzag is written as plain varints: the reference reads other values (class .zzrep) *)
-Theorem c12_standard_needs_tags_sane_zigzag : ~ marshal_standard_gen (fun t v => no_empty_map v = true).
-Proof. exact WireRefuted.marshal_standard_needs_tags_sane_zigzag. Qed.
-(* a repeated field tagged fixed32 is written as varints: the reference skips the records (class .zzrep) *)
-Theorem c12_standard_needs_tags_sane_fixed : ~ marshal_standard_gen (fun t v => no_empty_map v = true).
-Proof. exact WireRefuted.marshal_standard_needs_tags_sane_fixed. Qed.
-(* a map without entries is written as one entry with empty payload: the reference reads one entry (class .emap) *)
-Theorem c12_standard_needs_no_empty_map : ~ marshal_standard_gen (fun t v => tags_sane t = true).
-Proof. exact WireRefuted.marshal_standard_needs_no_empty_map. Qed.
-
-(* the transcribed specification is coherent: its decoder reads its canonical encoder back, for every descriptor
-   and every well-formed message *)
+(* ---- the specification itself ---- *)
+(* its decoder reads its canonical encoder back, for every descriptor and every well-formed message *)
 Theorem c12_spec_roundtrip : spec_roundtrip_statement.
 Proof. exact WireSpecProofs.spec_roundtrip. Qed.
-(* ... and reads EVERY legal encoding of a message (fields interleaved in any order, any legal varint padding,
-   arbitrary earlier occurrences of singular scalars, embedded messages split into several occurrences, unknown
-   fields) as that message; so does the package dialect when no bool is written on more than one byte *)
+(* it reads EVERY legal encoding of a message (occurrences of different fields interleaved in any order, any legal
+   varint padding of tags, lengths and values, arbitrary earlier occurrences of singular scalars, embedded messages
+   split into several occurrences that merge - also inside repeated elements and map values - and unknown fields)
+   as that message; so does the package dialect of the decoder *)
 Theorem c12_spec_reads_every_legal_encoding : spec_reencode_statement.
 Proof. exact WireSpecProofs.spec_reencode. Qed.
-(* the relation is not vacuous: the canonical encoding is a legal encoding *)
+(* the set of legal encodings is not vacuous: the canonical encoding belongs to it *)
 Theorem c12_canonical_is_legal : forall fs m, desc_wf (PMsg fs) = true -> msg_wf (PMsg fs) (PVMsg m) = true ->
     (len (spec_encode fs m) < 2 ^ 64)%Z -> reencodes false fs m (spec_encode fs m).
 Proof. exact WireSpecProofs.spec_encode_reencodes. Qed.
+
+(* ---- (a) the package's bytes are standard ---- *)
+(* for every struct type of the universe and every representable value, the specification's decoder reads
+   Marshal(&v) as a message that denotes v (up to nil-versus-empty). Set aside, each shown necessary below:
+   tags_sane (no zigzag/fixed variant on a repeated field), no_empty_map, zz_ok (a zigzag tag on a struct-typed
+   field), representable (known finding F17) *)
+Theorem c12_marshal_is_standard : WireEncProofs.marshal_standard_zz_statement.
+Proof. exact WireEncProofs.marshal_standard_zz. Qed.
+(* without zz_ok the statement of WireSpec.v is false: a zigzag tag on a struct-typed field zig-zags the integers
+   inside the nested message (class .zzstruct of the harness) *)
+Theorem c12_marshal_standard_needs_zz_ok : ~ marshal_standard_statement.
+Proof. exact WireEncProofs.marshal_standard_refuted. Qed.
+(* a repeated field tagged zigzag is written as plain varints: the reference reads other values (class .zzrep) *)
+Theorem c12_standard_needs_tags_sane_zigzag : ~ WireRefuted.marshal_standard_gen (fun t v => no_empty_map v = true).
+Proof. exact WireRefuted.marshal_standard_needs_tags_sane_zigzag. Qed.
+(* a repeated field tagged fixed32 is written as varints: the reference skips the records (class .zzrep) *)
+Theorem c12_standard_needs_tags_sane_fixed : ~ WireRefuted.marshal_standard_gen (fun t v => no_empty_map v = true).
+Proof. exact WireRefuted.marshal_standard_needs_tags_sane_fixed. Qed.
+(* a map without entries is written as one entry with empty payload: the reference reads one entry (class .emap) *)
+Theorem c12_standard_needs_no_empty_map : ~ WireRefuted.marshal_standard_gen (fun t v => tags_sane t = true).
+Proof. exact WireRefuted.marshal_standard_needs_no_empty_map. Qed.
+
+(* ---- (b) Unmarshal reads every standard encoding ---- *)
+(* (b1) on EVERY byte string that the specification's decoder accepts in the package dialect (strict 32-bit ranges,
+   wire-type mismatch is an error, an empty map entry record is ignored), Unmarshal returns the value the decoded
+   message denotes: the package decoder is the standard decoder up to these three switches *)
+Theorem c12_unmarshal_refines_spec : WireDecProofs.unmarshal_refines_zz_statement.
+Proof. exact WireDecProofs.unmarshal_refines_zz. Qed.
+Theorem c12_unmarshal_refines_needs_zz_ok : ~ unmarshal_refines_statement.
+Proof. exact WireDecProofs.unmarshal_refines_refuted. Qed.
+(* (b) hence every legal encoding w of a message m - whatever the order, padding (bools included since the repair
+   of decodeBool), duplicated scalars, split embedded messages, unknown fields - is decoded by Unmarshal to the
+   value m denotes, and the specification reads the same w as m *)
+Theorem c12_unmarshal_reads_every_legal_encoding : WireProofs.unmarshal_reencoded_zz_statement.
+Proof. exact WireProofs.unmarshal_reencoded_zz. Qed.
+(* a bool written on two bytes: a legal encoding, read by the specification and (now) by the package; the dialect of
+   the package before the repair rejected it *)
+Theorem c12_bool_padded_legal : reencodes true (fields_of WireRefuted.t_bool) [FOne (PVBool true)] [8; 129; 0]%Z.
+Proof. exact WireRefuted.bool_padded_legal. Qed.
+Theorem c12_bool_padded_pkg : Unmarshal 10 WireRefuted.t_bool [8; 129; 0]%Z (zero_val WireRefuted.t_bool) = Ok (Some (VStruct [VBool true])).
+Proof. exact WireRefuted.bool_padded_pkg. Qed.
